@@ -220,7 +220,26 @@ func asciiJSON(s string) string {
 
 func rawPhase(w *world, c Case, root jrpc2.Assigner, start time.Time) *engine.Verdict {
 	cli, srvEnd := channel.Direct()
-	srv := jrpc2.NewServer(recorder{w, root}, &jrpc2.ServerOptions{DisableBuiltin: c.DisableBuiltin, StartTime: start})
+	// An inner server whose base context comes from the handler context of an
+	// outer one (a forwarding handler does that): handlers of the inner server
+	// still find the inner server in their context.
+	var outerCtx context.Context
+	outer := server.NewLocal(handler.Map{"cap": func(ctx context.Context, req *jrpc2.Request) (any, error) {
+		outerCtx = context.WithoutCancel(ctx)
+		return nil, nil
+	}}, nil)
+	if _, err := outer.Client.Call(context.Background(), "cap", nil); err != nil || outerCtx == nil {
+		v := engine.Failf("C17/raw", "outer server: %v", err)
+		return &v
+	}
+	defer outer.Close()
+	opts := &jrpc2.ServerOptions{DisableBuiltin: c.DisableBuiltin, StartTime: start, NewContext: func() context.Context { return outerCtx }}
+	srv := jrpc2.NewServer(recorder{w, root}, opts)
+	// the options belong to the caller again: what is done to them later is none
+	// of this server's business
+	opts.DisableBuiltin = !c.DisableBuiltin
+	opts.StartTime = start.Add(999)
+	opts.NewContext = nil
 	// NewServer: "It is not safe to modify mux after the server has been started
 	// unless mux itself is safe for concurrent use" - so before Start it is: a
 	// method added between NewServer and Start is served and listed like any other.
